@@ -323,3 +323,42 @@ func H_C19_many_broken() {
 	}
 	vReach("end")
 }
+
+// thorough tier: three entries with symbolic contents; four entries with fixed contents
+func H_C19T_dir3_symbolic() {
+	vSym = true
+	es := vDirScenario(3)
+	ok := vNoPanic(func() { _ = handleDir(vFSPath("d")) })
+	vAssert(ok, "C19 handleDir: no crash")
+	for _, e := range es {
+		vCheckEntry("C19 handleDir(3, symbolic contents)", e)
+	}
+	vReach("end")
+}
+
+func H_C19T_glob3() {
+	es := vDirScenario(3)
+	pat := []string{"d/*.go", "d/*", "d/?ann*", "d/[ab]*"}[vndChoice("pattern", 4)]
+	ok := vNoPanic(func() { _ = handlePatternFiles(vFSPath(pat)) })
+	vAssert(ok, "C19 handlePatternFiles: no crash")
+	for i, e := range es {
+		matched := true
+		switch pat {
+		case "d/?ann*":
+			matched = vIndex(e.name, "ann") == 3
+		case "d/[ab]*":
+			matched = i < 2 && e.name[2] != '.'
+		case "d/*.go":
+			matched = len(e.name) > 3 && e.name[len(e.name)-3:] == ".go"
+		case "d/*":
+			matched = true // filepath.Match has no rule for leading dots: '*' matches them
+		}
+		if !matched && e.class != 0 {
+			got, ok := vFSGet(e.name)
+			vAssert(ok && got == e.content && !vWritten(e.name), "C19 handlePatternFiles "+pat+": a file the pattern does not match is untouched")
+			continue
+		}
+		vCheckEntry("C19 handlePatternFiles(3) "+pat, e)
+	}
+	vReach("end")
+}
